@@ -16,7 +16,7 @@ def main():
     cases, hist_cases = [], []
     for s in scripts:
         beats = rng.choice([0, 0, 1, 3])
-        obs = cl.run_script(s, with_lineage=True, beats=beats)
+        obs = cl.run_script(s, with_lineage=True, beats=beats, race=rng.random() < 0.5)
         cl.life_oracle(run, s, obs, {'C18'})
         ev = [e for e, _ in obs['events']]
         run.seen(('lin', cl.script_lit(s), beats), nontrivial=bool(ev))
